@@ -278,7 +278,7 @@ def execNode (nested : Nested) (sem : Sem) (gi : Nat) (nd : NodeD) (inputs : AL 
 inductive StepOut
   | ok (ns : GState) (log : List Log)
   | fail (e : ErrId) (partialState : GState) (log : List Log)
-  | pause (p : PauseInfo) (log : List Log)
+  | pause (p : PauseInfo) (partialState : GState) (log : List Log)
   deriving Inhabited
 
 def nodeSpanOf (runSpan : Span) (k : Nat) (nd : NodeD) : Span := runSpan ++ [nd.name ++ "#" ++ toString k]
@@ -296,7 +296,9 @@ def routeEvent (runSpan : Span) (k : Nat) (nd : NodeD) (ns : GState) : List Log 
     | .none => []
   else []
 
-/-- `run_superstep_sync`: nodes run in ready order, reading the snapshot `s`, writing the copy -/
+/-- `run_superstep_sync`: nodes run in ready order, reading the snapshot `s`, writing the copy.
+(The sync runner rejects interrupt nodes at validation; the pause branch exists for totality and
+reports the snapshot `s` as partial state.) -/
 def stepSync (nested : Nested) (sem : Sem) (gi : Nat) (g : GraphD) (runSpan : Span) (k : Nat)
     (s : GState) : List NodeD → GState → List Log → StepOut
   | [], ns, log => .ok ns log
@@ -312,7 +314,7 @@ def stepSync (nested : Nested) (sem : Sem) (gi : Nat) (g : GraphD) (runSpan : Sp
         | .none => ns
       match out.pause with
       | some p =>
-        .pause p (log ++ [startEv] ++ out.log ++
+        .pause p s (log ++ [startEv] ++ out.log ++
           [.ev { kind := "NodeError", span := sp, parent := some runSpan, name := nd.name }])
       | .none =>
         match out.res with
@@ -337,7 +339,8 @@ def permute {α} [Inhabited α] (l : List α) (order : List Nat) : List α :=
 
 /-- `run_superstep_async`: every node reads the snapshot `s`; gates store their decision in
 `new_state` as they complete (order `order`); successful outputs are applied in ready order;
-the first error in ready order is raised with the state holding all successful siblings. -/
+the first error — or pause — in ready order is raised with the state holding all successful siblings
+(`ns2`): a pause reports what the superstep completed alongside it, exactly as a failure does. -/
 def stepAsync (nested : Nested) (sem : Sem) (gi : Nat) (g : GraphD) (runSpan : Span) (k : Nat)
     (order : List Nat) (s : GState) (rs : List NodeD) : StepOut :=
   let rs := match rs.find? (·.isInterrupt) with
@@ -376,7 +379,7 @@ def stepAsync (nested : Nested) (sem : Sem) (gi : Nat) (g : GraphD) (runSpan : S
   | .none => .ok ns2 log
   | some r =>
     match r.out.pause, r.out.res with
-    | some p, _ => .pause p log
+    | some p, _ => .pause p ns2 log
     | .none, .error e => .fail e ns2 log
     | .none, .ok _ => .ok ns2 log
 
@@ -402,7 +405,7 @@ def runLoop (step : Nat → GState → List NodeD → StepOut) (g : GraphD) (act
       match step k s1 rs with
       | .ok ns l => runLoop step g active maxIter fuel (k + 1) ns (log ++ l)
       | .fail e ps l => .fail e ps (log ++ l) (k + 1)
-      | .pause p l => .pause p s1 (log ++ l) (k + 1)
+      | .pause p ps l => .pause p ps (log ++ l) (k + 1)
 
 /-! ## `run` and `map` -/
 
